@@ -1094,11 +1094,10 @@ func New(c *Config, blockFilters []Filter) (d *DNSFilter, err error) {
 		return nil, fmt.Errorf("rewrites: preparing: %w", err)
 	}
 
-	if d.conf.BlockedServices != nil {
-		err = d.conf.BlockedServices.Validate()
-		if err != nil {
-			return nil, fmt.Errorf("filtering: %w", err)
-		}
+	d.conf.BlockedServices = d.conf.BlockedServices.withSchedule()
+	err = d.conf.BlockedServices.Validate()
+	if err != nil {
+		return nil, fmt.Errorf("filtering: %w", err)
 	}
 
 	if blockFilters != nil {
